@@ -499,9 +499,10 @@ impl G {
             MapCtx => format!("map_ctx(ctx+{:?}, {})", cs, k[0]),
             CtxJust => "just(..).configure(|c,ctx| c.seq(text(ctx)))".to_string(),
             CtxRep if self.p.ok => format!(
-                "{}.repeated(){}.configure(|c,ctx| c.exactly(len(ctx))){}",
+                "{}.repeated(){}.configure(|c,ctx| c.{}){}",
                 k[0],
                 if self.p.lead { ".at_least(3).at_most(1)" } else { "" },
+                if self.p.trail { "at_least(len(ctx)/2).at_most(len(ctx))" } else { "exactly(len(ctx))" },
                 match self.p.flav {
                     Flav::Unit => ".to(())",
                     Flav::Count => ".count()",
